@@ -74,6 +74,8 @@ class Opts:
         self.n_requests = 5
         self.force_infection = False
         self.force_strat = False
+        self.shared_names_bias = 0.0  # probability that a new flow re-uses the NAME of an earlier flow of any kind (names need not be unique)
+        self.mixing_pair_bias = 0.0   # probability of forcing two full mixing-carrying stratifications of different flavours (const / param / timevar), in random order
         for k, v in kw.items():
             if not hasattr(self, k):
                 raise AttributeError(k)
@@ -240,6 +242,14 @@ class Gen:
             f = self.gen_flow(force="infection")
             if f: ops.append(f)
         nstr = r.randint(1 if o.force_strat else 0, o.max_strats)
+        self.force_mix = []
+        if o.mixing_pair_bias and o.allow_mixing and not o.unadjusted and r.random() < o.mixing_pair_bias:
+            self.force_mix = r.sample(["const", "param", "timevar"], 2)
+            nstr = max(nstr, 2)
+            self.count("mixing_pair:" + ">".join(self.force_mix))
+            if not any(f[1] in ("inf_freq", "inf_dens") for f in self.flows):
+                f = self.gen_flow(force="infection")
+                if f: ops.append(f)
         for i in range(nstr):
             s = self.gen_strat()
             if s:
@@ -337,6 +347,13 @@ class Gen:
             if use_filter:
                 op["dst_strata"] = self.random_filter(dst)
             self.flows.append((op["name"], "import", None, dst))
+        if o.shared_names_bias and kind != "universal_death" and r.random() < o.shared_names_bias:
+            cands = [f for f in self.flows[:-1] if not f[0].startswith("udeath")]
+            if cands:
+                other = r.choice(cands)
+                op["name"] = other[0]
+                self.flows[-1] = (other[0],) + tuple(self.flows[-1][1:])
+                self.count("flow:shared_name")
         self.count("flow:" + op["kind"])
         if post: self.count("flow_post_strat")
         if op.get("src_strata") or op.get("dst_strata"): self.count("flow_with_filter")
@@ -374,6 +391,9 @@ class Gen:
         if o.allow_age and not any(s["kind"] == "age" for s in self.strats): kinds.append("age")
         if o.allow_strain and not any(s["kind"] == "strain" for s in self.strats): kinds.append("strain")
         kind = r.choice(kinds)
+        forced_mix = self.force_mix.pop(0) if getattr(self, "force_mix", None) else None
+        if forced_mix:
+            kind = "plain"
         used = [s["name"] for s in self.strats]
         if kind == "plain":
             avail = [n for n in STRAT_NAMES if n not in used]
@@ -388,7 +408,7 @@ class Gen:
         else:
             name = "strain"
             strata = STRAIN_STRATA[: r.randint(1, min(2, o.max_strata))]
-        full = kind == "age" or not o.allow_partial or r.random() < 0.6
+        full = kind == "age" or not o.allow_partial or r.random() < 0.6 or bool(forced_mix)
         if full:
             comps = list(self.orig)
         elif kind == "strain":
@@ -457,8 +477,10 @@ class Gen:
                     ia.append([cname, adjs]); self.count("inf_adj")
             if ia: op["inf_adj"] = ia
         # mixing matrix (only on full, non-strain stratifications)
-        if o.allow_mixing and not o.unadjusted and kind != "strain" and comps == list(self.orig) and r.random() < 0.6:
+        if o.allow_mixing and not o.unadjusted and kind != "strain" and comps == list(self.orig) and (r.random() < 0.6 or forced_mix):
             z = r.random()
+            if forced_mix:
+                z = {"const": 0.1, "param": 0.5, "timevar": 0.9}[forced_mix]
             mat = []
             for i in range(n):
                 row = []
